@@ -28,7 +28,12 @@ fn source(space: Space, rng: &mut pvmon::Rng) -> V3 {
         3 => [rng.range(0.01, 0.05), rng.range(0.01, 0.05), rng.range(0.01, 0.05)],
         _ => [rng.range(0.01, 0.99), rng.range(0.01, 0.99), rng.range(0.01, 0.99)],
     };
-    gen::from_lin_srgb_like(space, lin)
+    let mut c = gen::from_lin_srgb_like(space, lin);
+    // a hue is an angle: the same colour with the hue stored a few turns away
+    if let Some(h) = space.hue_index() {
+        c[h] += 360.0 * *rng.pick(&[0.0, 0.0, 0.0, -1.0, -2.0, 1.0]);
+    }
+    c
 }
 
 fn main() {
